@@ -3,6 +3,7 @@ package c02
 import (
 	"context"
 	"fmt"
+	"math"
 	"os"
 	"path/filepath"
 	"strconv"
@@ -173,6 +174,7 @@ func TestCheck(t *testing.T) {
 		"producer chains are produced by a real aggregator run; executor double = hash-chain reference",
 		"ingress level: all five loops of the full node under the cooperative scheduler; blobs within <=2/3 deviations from the in-order placement on 3 DA heights; P2P stores empty or holding the chain; the sends into the sync loop's input channels are diverted into harness-side FIFOs (buffered-channel semantics) and the explorer decides at every point where an event is deliverable who goes next (a producer running ahead, the next header, the next data event; <=1/2 deviations from 'producers, headers, data') and whether the node is cleanly restarted right there — between two steps of its threads, in the middle of a tick, with the scan ahead of the sync loop: the events still queued (scanned, marked DA-included, not yet taken by the sync loop) are lost with the process, the caches are saved (SaveCache) and loaded by the next NewManager from the same directory, the store image is kept, and the DA layer is scanned again; a stop keeps nothing but store and caches, so within one tick the decision is offered once per distinct (store write log, header cache, data cache) state",
 		"custom signature payload provider: one fixed non-default provider (payload = sha256 of a tag and the header bytes, world.CustomPayloadProvider) configured on the producing aggregator and on the full node through ManagerOptions.SignaturePayloadProvider; header events carry the verifier the two ingress paths attach (block/retriever.go, block/store.go) before they push them; the statement's guarantees do not depend on which provider the chain is configured with",
+		"long catch-up: the producer chains are committed by a real aggregator (world.BuildLongChain): the empty block at height 1, then empty blocks except the blocks on both sides of every multiple of 64 (heights 64, 65, 128, 129, ..., 256, 257, ...) and the last one, which carry 1..3 transactions naming the block (no two blocks share a data commitment); all five loops of the full node run under the cooperative scheduler in its canonical schedule (the thread that ran last goes on, else the first by name; queued events: headers before data) — interleavings are the business of the other parts, this part varies only the SIZE of what one poll of an ingress finds; the sends into the sync loop's input channels go into the harness-side FIFOs, which are unbounded — exact for the lengths explored, because a chain of L <= 4100 blocks yields fewer events than the capacity of the real channels (eventInChLength = 10000), so neither is ever full; backlogs beyond that capacity are outside the bound; liveness is judged by progress, not by a fixed number of polls: ticker rounds (DA tick + P2P tick, each run to quiescence) go on while the node's height moves and the run ends after 3 rounds without movement, so an implementation that works a backlog off in several polls is not faulted",
 		"crowded heights: the retrieval batch size of types.RetrieveWithHelpers is taken as 100 (C09 measures it); filler blobs are short non-protobuf byte strings",
 	}
 	var patterns []string
@@ -218,10 +220,20 @@ func TestCheck(t *testing.T) {
 			Ingress bool
 			Crowded bool
 			Custom  bool
+			Long    bool // long catch-up part: chain of Total blocks, Mode of longModes (no choices: canonical schedule)
+			Total   int
+			Mode    string
 			Choices []explore.Point
 		}
 		if _, err := r.LoadReplay(&h); err != nil {
 			r.EngineError(err.Error())
+		} else if h.Long {
+			if pc, err := world.BuildLongChain(h.Total); err != nil {
+				r.EngineError(err.Error())
+			} else if o, _, _ := longBody(t, pc, h.Mode); o.fail != nil {
+				fmt.Println(o.fail.Msg, o.trace)
+				r.Report(vf.Violation{Clause: o.fail.Clause, Tags: []string{"ingress-level", "long-catch-up", "long-catch-up:" + h.Mode}, Msg: o.fail.Msg, Cost: h.Total, History: h})
+			}
 		} else if pc, err := world.BuildChainFor(h.Pattern, h.Initial, h.Custom); err != nil {
 			r.EngineError(err.Error())
 		} else {
@@ -248,6 +260,14 @@ func TestCheck(t *testing.T) {
 	deadline := time.Now().Add(budget)
 	var caps []string
 	l2patterns := vf.Pick(r, []string{"ab"}, []string{"ab", "ea"})
+	// level 2, long catch-up: every chain length of the dense ranges (and a few single longer ones) in every mode, canonical
+	// schedule; bounded work, run first so that the deadline never cuts it
+	longDense := vf.Pick(r, [][2]int{{2, 132}, {250, 264}}, [][2]int{{2, 600}, {1020, 1030}, {2044, 2052}})
+	longSparse := vf.Pick(r, []int{200, 300, 400, 520, 1030}, []int{4100})
+	longLs := longLengths(longDense, longSparse)
+	longCPU0 := cpuSeconds()
+	long := longPart(t, r, longLs)
+	longCPU := cpuSeconds() - longCPU0
 	// level 2, crowded heights: every (filler count, DA height, ahead) configuration; small and run first so that the deadline never cuts it
 	crowdBudgets := vf.Pick(r, map[string]int{"order": 0, "restart": 0}, map[string]int{"order": 1, "restart": 1})
 	var crowdRuns, crowdPoints, customRuns int64
@@ -398,14 +418,15 @@ func TestCheck(t *testing.T) {
 			caps = append(caps, "ingress "+pt+": "+st.Capped)
 		}
 	}
-	l2.Executions += crowdRuns
-	l2.Points += crowdPoints
+	l2.Executions += crowdRuns + long.runs
+	l2.Points += crowdPoints + long.steps
 	total.Executions += l2.Executions
 	total.Points += l2.Points
 	r.Finish(vf.Coverage{
 		Evaluations: total.Executions, DistinctNontrivial: int64(r.DistinctOutcomes()), States: total.Executions, Transitions: total.Points,
-		Rule:       "for every producer chain pattern over {empty, A, B} of 1..n blocks above the genesis block (incl. identical transaction lists) and two chains with initial height 3: every permutation of the header/data events, with at most one duplicated event at any later position and at most one clean stop/restart at any idle point (chains of 3 blocks above genesis, thorough tier only: one duplicate OR one restart); the same chains once more in the configuration 'non-default signature payload provider on producer and full node' (every permutation, at most one clean restart at any idle point — so every set of headers/data waiting in the caches travels through the cache file — duplicates per custom_payload_budgets); ingress level (all five loops, restart between any two steps) once more with the non-default signature payload provider within ingress_custom_payload_budgets, and additionally in the crowded-height configuration: all genuine blobs at one DA height (each of the 3) behind N filler blobs, for every N that puts a genuine blob on an index in {b-1, b, b+1, 2b, 2b+1} of the height (b = retrieval batch size 100), scan ahead of or in step with the DA layer, DA the only ingress; distinct = distinct delivery traces",
+		Rule:       "for every producer chain pattern over {empty, A, B} of 1..n blocks above the genesis block (incl. identical transaction lists) and two chains with initial height 3: every permutation of the header/data events, with at most one duplicated event at any later position and at most one clean stop/restart at any idle point (chains of 3 blocks above genesis, thorough tier only: one duplicate OR one restart); the same chains once more in the configuration 'non-default signature payload provider on producer and full node' (every permutation, at most one clean restart at any idle point — so every set of headers/data waiting in the caches travels through the cache file — duplicates per custom_payload_budgets); ingress level (all five loops, restart between any two steps) once more with the non-default signature payload provider within ingress_custom_payload_budgets, and additionally in the crowded-height configuration: all genuine blobs at one DA height (each of the 3) behind N filler blobs, for every N that puts a genuine blob on an index in {b-1, b, b+1, 2b, 2b+1} of the height (b = retrieval batch size 100), scan ahead of or in step with the DA layer, DA the only ingress; ingress level, long catch-up (a node far behind; canonical schedule, no interleaving exploration): for EVERY chain length L in the ranges long_catchup_dense_ranges (all small lengths and a window around the power of two 256, more at the thorough tier) and the single lengths long_catchup_sparse_lengths, in every one of the 7 long_catchup_modes — p2p: both P2P stores hold heights 1..L at the node's first poll, nothing on DA; p2p-two-polls: the stores hold 1..L/8 at the first poll and 1..L at the second; da-one-height: all L header blobs and all data blobs at DA height 1; da-spread: block i's blobs at DA height i+1 with the DA layer L heights ahead; split-heights: lower half only in the P2P stores, upper half only on DA; split-p2p-headers: headers only in the P2P header store, data only on DA; split-p2p-data: data only in the P2P data store, headers only on DA — the node must reach height L with the proposer's header hashes, transactions, state roots and execution order (clauses of world.CheckFollows; the order/identity/monotonicity clauses are also checked after every ticker round); distinct = distinct delivery traces (long catch-up: distinct (mode, L, rounds, final height))",
 		Exhaustive: true, Caps: caps,
-		Bounds: map[string]any{"blocks_above_genesis": nAbove, "chains_of_3_blocks_max_deviations": 1, "patterns": nDefaultJobs, "budgets": budgets, "custom_payload_patterns": len(jobs) - nDefaultJobs, "custom_payload_budgets": customBudgets, "custom_payload_budgets_thorough_chains_up_to_2_blocks": budgets, "custom_payload_executions_shard0": customRuns, "ingress_patterns": l2patterns, "ingress_budgets": l2budgets, "ingress_executions": l2.Executions, "ingress_custom_payload_budgets": l2customBudgets, "ingress_custom_payload_executions_shard0": l2customRuns, "ingress_crowded_budgets": crowdBudgets, "ingress_crowded_executions_shard0": crowdRuns, "ingress_crowded_configurations": crowdConfigs, "ingress_crowded_filler_counts": crowdNs, "ingress_crowded_retrieval_batch": retrievalBatch},
+		Bounds: map[string]any{"blocks_above_genesis": nAbove, "chains_of_3_blocks_max_deviations": 1, "patterns": nDefaultJobs, "budgets": budgets, "custom_payload_patterns": len(jobs) - nDefaultJobs, "custom_payload_budgets": customBudgets, "custom_payload_budgets_thorough_chains_up_to_2_blocks": budgets, "custom_payload_executions_shard0": customRuns, "ingress_patterns": l2patterns, "ingress_budgets": l2budgets, "ingress_executions": l2.Executions, "ingress_custom_payload_budgets": l2customBudgets, "ingress_custom_payload_executions_shard0": l2customRuns, "ingress_crowded_budgets": crowdBudgets, "ingress_crowded_executions_shard0": crowdRuns, "ingress_crowded_configurations": crowdConfigs, "ingress_crowded_filler_counts": crowdNs, "ingress_crowded_retrieval_batch": retrievalBatch,
+			"long_catchup_dense_ranges": longDense, "long_catchup_sparse_lengths": longSparse, "long_catchup_modes": longModes, "long_catchup_configurations": len(longLs) * len(longModes), "long_catchup_executions_shard0": long.runs, "long_catchup_blocks_synced_shard0": long.blocks, "long_catchup_scheduler_steps_shard0": long.steps, "long_catchup_max_ticker_rounds_shard0": long.maxRounds, "long_catchup_idle_rounds_before_verdict": idleRounds, "long_catchup_cpu_seconds_shard0": math.Round(longCPU*10) / 10},
 	})
 }
